@@ -47,6 +47,31 @@
    it goes to the exit path with `failed` set.  Under -E every input is C
    (opt_x = FILE_C), so nothing is rejected.
 
+   Fourth round (defects of HEAD nobody had a behaviour for: `chibicc -E <directory>` exits 0
+   with empty output, `-D` / `-U` / `-MQ` as the last argument kill the driver, `-L` as the
+   last argument and `-I <dir>` are misparsed).  Two more dimensions:
+     * what an input path *is*: besides a regular file ("src" / "bad" / "badgen") and nothing
+       ("missing") it may be a directory ("isdir": fopen() succeeds, the first read fails
+       with EISDIR) or a name that cannot be opened for a reason other than ENOENT ("eloop":
+       a symbolic link to itself -- the stand-in for "unreadable", which does not exist for
+       root).  No tool can read either: cc1 fails without touching anything, as / ld create
+       their output, fail and remove it again (observed with strace), exactly as for a
+       missing input; the path is still there afterwards.  The -o path may likewise be an
+       existing directory (fault "unwritable" with how = "isdir"; how = "-" is the
+       non-existent directory of the earlier rounds): nobody can create the output.
+     * the option table: every option of parse_args() that takes an argument (ArgOpts) is
+       given (fault t = "opt", k = its index) either as the very last word of the command
+       without its argument (how = "noarg": parse_args() must print the usage message and
+       exit 1 before anything is created or started) or in front of the inputs with a
+       harmless argument in the separate-word form (how = "val": -I / -idirafter / -L <an
+       empty directory>, -include <an empty header>, -x none, -MF / -MT / -MQ <name> without
+       -MD, -Xlinker --as-needed, -D X=1, -U X; the command must behave exactly as without
+       it); for -include, the one option whose argument is a file that is read, the file
+       may also be missing or a directory (how = "missing" / "isdir": every front end
+       fails, touching nothing).  Bounds: option faults are enumerated for the commands
+       with the single input in1.c, directory inputs for commands with at most two inputs,
+       unopenable inputs for commands with one input.
+
    Deviations of the code from the intended discipline are switchable so that
    TLC shows what each breaks (sensitivity controls):
      Pinned = TRUE      main.c before fix-1 / fix-2 of proposed/C14 (D24, D25): (a) run_linker() runs whenever
@@ -61,6 +86,10 @@
      Buffered = FALSE   cc1 opens (truncates) its output after parse() and streams
                         codegen() into it: only a badgen input shows the difference
      ExclTmp = FALSE    predictable temporary names, no O_EXCL
+     DirIsEmpty = TRUE  tokenize.c read_file() before fix-3 of proposed/C14: a failing read is taken
+                        for the end of the file, so the front end compiles a directory as an
+                        empty translation unit (exit 0, output written)
+     ArgCheck = FALSE   parse_args() does not check that an option has its argument
    Named difference to gcc that is *not* treated as a defect: -E sets
    opt_x = FILE_C, so under -E every input, whatever its suffix, is preprocessed.
 *)
@@ -68,7 +97,7 @@ EXTENDS Integers, Sequences, FiniteSets, TLC, Json, CSV, IOUtils, SequencesExt
 
 CONSTANTS ND,          \* number of drivers started in the directory (1 or 2)
           MaxIn,       \* inputs per command: 1..MaxIn
-          Pinned, DoCleanup, AtExit, CheckWait, Buffered, ExclTmp,
+          Pinned, DoCleanup, AtExit, CheckWait, Buffered, ExclTmp, DirIsEmpty, ArgCheck,
           Emit         \* TRUE: write one line per terminated single-driver behaviour to IOEnv.OUT
 
 D == 1..ND
@@ -85,6 +114,12 @@ TmpPaths == {TmpName(n) : n \in 1..NT}
 UserPaths == {In(i, k) : i \in 1..MaxIn, k \in AllKinds} \cup {"a.out"} \cup {OPath(d) : d \in D}
 AllPaths == UserPaths \cup TmpPaths
 
+(* parse_args(): the options that take an argument as a separate word (take_arg() lists some of
+   them; -D -U -MQ -L are taken with argv[++i] as well); the harness's ARGOPTS, same order *)
+ArgOpts == <<"-o", "-I", "-idirafter", "-include", "-x", "-MF", "-MT", "-Xlinker", "-D", "-U", "-MQ", "-L">>
+IncludeOpt == 4
+Unreadable == {"absent", "dir", "loop"}      \* what no tool can read: nothing, a directory, a name that cannot be opened
+
 NoF == [t |-> "none", k |-> 0, how |-> "-"]
 NoDF == [t |-> "none", i |-> 0]
 NoChild == [tool |-> "none", ins |-> <<>>, out |-> "-", fin |-> "-", status |-> "-"]
@@ -92,9 +127,10 @@ NoStep == [tool |-> "none", out |-> "-", fin |-> "-"]
 
 VARIABLES ins,       \* kinds of the input files in the directory, shared by the drivers
           pre,       \* "old" | "absent": what every possible output path holds initially
-          dirfault,  \* [t: none|missing|bad|badgen|unkext, i]   a property of the directory / the command line
+          dirfault,  \* [t: none|missing|isdir|eloop|bad|badgen|unkext, i]   a property of the directory / the command line
           cmd,       \* d -> [mode, o]
-          fault,     \* d -> [t: none|cc1|as|ld|unwritable, k, how: exit|signal|noexec]
+          fault,     \* d -> [t: none|cc1|as|ld, k, how: exit|signal|noexec] | [t: unwritable, how: -|isdir]
+                     \*      | [t: opt, k: index into ArgOpts, how: noarg|val|missing|isdir]
           prog,      \* d -> the step list of the command (ProgOf)
           fs,        \* path -> content tag
           pc, ip, tmps, child, ncall, failed, code, cl,
@@ -163,8 +199,11 @@ NCalls(pr, tool) == Len(SelectSeq(pr, LAMBDA o : o.op = tool))
 InitTag(insV, preV, dfV, fltV, p) ==
   IF \E i \in 1..Len(insV) : p = In(i, insV[i])
   THEN LET i == CHOOSE j \in 1..Len(insV) : p = In(j, insV[j])
-       IN IF dfV.i = i /\ dfV.t # "unkext" THEN (IF dfV.t = "missing" THEN "absent" ELSE dfV.t) ELSE "src"
+       IN IF dfV.i = i /\ dfV.t # "unkext"
+          THEN (CASE dfV.t = "missing" -> "absent" [] dfV.t = "isdir" -> "dir" [] dfV.t = "eloop" -> "loop" [] OTHER -> dfV.t)
+          ELSE "src"
   ELSE IF p \in TmpPaths THEN "absent"
+  ELSE IF \E d \in D : p = OPath(d) /\ fltV[d].t = "unwritable" /\ fltV[d].how = "isdir" THEN "dir"   \* -o names a directory
   ELSE IF \E d \in D : p = OPath(d) /\ fltV[d].t = "unwritable" THEN "absent"     \* its directory does not exist
   ELSE preV
 
@@ -198,11 +237,17 @@ InitFrom(s) ==
   /\ Rest
 
 ToolFaults(pr) == {[t |-> tool, k |-> k, how |-> h] : tool \in Tools, k \in 1..MaxIn, h \in {"exit", "signal", "noexec"}}
+OptFaults == {[t |-> "opt", k |-> k, how |-> "noarg"] : k \in 1..Len(ArgOpts)}
+             \cup {[t |-> "opt", k |-> k, how |-> "val"] : k \in 2..Len(ArgOpts)}        \* (-o with its argument is cmd.o)
+             \cup {[t |-> "opt", k |-> IncludeOpt, how |-> h] : h \in {"missing", "isdir"}}
 FaultsOf(insV, c, d) ==
   LET pr == ProgOf(insV, c, d) IN
   {NoF} \cup (IF Usage(insV, c) THEN {} ELSE
               {f \in ToolFaults(pr) : f.k <= NCalls(pr, f.t)}
-              \cup (IF c.o THEN {[t |-> "unwritable", k |-> 0, how |-> "-"]} ELSE {}))
+              \cup (IF c.o THEN {[t |-> "unwritable", k |-> 0, how |-> h] : h \in {"-", "isdir"}} ELSE {})
+              \cup (IF insV = <<"c">> /\ ND = 1 THEN OptFaults ELSE {}))     \* (two drivers: an option fault adds no interleaving)
+NoArg(d) == fault[d].t = "opt" /\ fault[d].how = "noarg"          \* parse_args(): usage(1)
+BadInclude(d) == fault[d].t = "opt" /\ fault[d].how \in {"missing", "isdir"}   \* cc1(): the -include file cannot be read
 
 Rank(c) == (CASE c.mode = "E" -> 0 [] c.mode = "S" -> 2 [] c.mode = "c" -> 4 [] c.mode = "link" -> 6) + (IF c.o THEN 1 ELSE 0)
 
@@ -211,6 +256,8 @@ Init ==
   /\ cmd \in [D -> [mode : Modes, o : BOOLEAN]]
   /\ ND = 2 => Rank(cmd[1]) <= Rank(cmd[2])       \* the drivers are interchangeable (out1 / out2 renamed)
   /\ dirfault \in {NoDF} \cup {[t |-> x, i |-> i] : x \in {"missing", "bad"}, i \in 1..Len(ins)}
+                      \cup {[t |-> "isdir", i |-> i] : i \in {j \in 1..Len(ins) : Len(ins) <= 2}}    \* (bounds of the closed domain:
+                      \cup {[t |-> "eloop", i |-> i] : i \in {j \in 1..Len(ins) : Len(ins) = 1}}     \*  the model treats both as "missing")
                       \cup {[t |-> x, i |-> i] : x \in {"badgen", "unkext"}, i \in {j \in 1..Len(ins) : ins[j] = "c"}}
   /\ \E f1 \in (IF dirfault = NoDF THEN FaultsOf(ins, cmd[1], 1) ELSE {NoF}) :          \* a single fault
        IF ND = 1 THEN fault = <<f1>>
@@ -233,7 +280,7 @@ Foreign(d, paths) == \E p \in paths \cap TmpPaths : owner[p] \notin {0, d}
 
 ParseArgs(d) ==
   /\ pc[d] = "start"
-  /\ IF Usage(ins, cmd[d])
+  /\ IF Usage(ins, cmd[d]) \/ (ArgCheck /\ NoArg(d))
      THEN /\ failed' = [failed EXCEPT ![d] = TRUE] /\ sf' = [sf EXCEPT ![d] = TRUE]
           /\ pc' = [pc EXCEPT ![d] = AfterMain(<<>>)]
      ELSE /\ failed' = [failed EXCEPT ![d] = Rej(d, 1)] /\ sf' = [sf EXCEPT ![d] = Rej(d, 1)]
@@ -288,7 +335,9 @@ SpawnFail(d) ==               \* execvp fails: nothing runs, nothing is touched,
 Outcome(d) ==
   LET c == child[d]
       hit == fault[d].t = c.tool /\ fault[d].k = ncall[d][c.tool]
-      inOK == \A j \in DOMAIN c.ins : fs[c.ins[j]] \notin {"absent", "bad"}           \* readable, accepted by parse()
+      asEmpty == IF DirIsEmpty /\ c.tool = "cc1" THEN {"dir"} ELSE {}                \* (the front end before fix-3)
+      inOK == /\ \A j \in DOMAIN c.ins : fs[c.ins[j]] \notin (Unreadable \ asEmpty) \cup {"bad"}   \* readable, accepted by parse()
+              /\ ~(c.tool = "cc1" /\ BadInclude(d) /\ ~(DirIsEmpty /\ fault[d].how = "isdir"))
       genOK == cmd[d].mode = "E" \/ \A j \in DOMAIN c.ins : fs[c.ins[j]] # "badgen"    \* accepted by codegen()
       tracked == c.out # "-"
       canW == ~(fault[d].t = "unwritable" /\ c.out = OPath(d))
@@ -386,6 +435,14 @@ P4 == AllDone =>
              fs[p] = InitTag(EK(ins, dirfault), pre, dirfault, fault, p)
 (* P5  no driver (or child of it) reads, writes, replaces or unlinks a temporary the other owns *)
 P5 == ~interf
+(* P6  a command that names an input nobody can read (nothing there, a directory, a name that
+       cannot be opened) in a position where the mode consumes it, an unreadable -include file
+       for a front end that runs, or an option without its argument, does not exit 0 *)
+Consumed(c, k) == CASE c.mode = "E" -> TRUE [] c.mode = "S" -> k = "c" [] c.mode = "c" -> k \in {"c", "s"} [] c.mode = "link" -> TRUE
+P6 == \A d \in D : (pc[d] = "done" /\ code[d] = 0) =>
+        /\ ~NoArg(d)
+        /\ ~(BadInclude(d) /\ ncall[d]["cc1"] > 0)
+        /\ (dirfault.t \in {"missing", "isdir", "eloop"} => ~Consumed(cmd[d], ins[dirfault.i]))
 TypeOK == /\ \A d \in D : pc[d] \in {"start", "run", "child", "wait", "cleanup", "exit", "done"}
           /\ \A d \in D : code[d] \in {-1, 0, 1}
           /\ \A d \in D : Len(tmps[d]) <= 2 * MaxIn
